@@ -49,6 +49,15 @@ type OpMix struct {
 	OddVoteProb float64
 	// Eth1VoteNoise: probability that this block's eth1 vote is a random one instead of the honest one.
 	Eth1VoteNoise float64
+	// PayloadEdge: the payload's variable-size fields sit at their limits: extra_data of 0, 31 or 32 bytes,
+	// no transaction or several, blob commitments none or exactly MAX_BLOBS_PER_BLOCK (Blobs/Transactions are
+	// then ignored).
+	PayloadEdge bool
+	// Fill names the operation kinds of which this block should carry exactly the per-block maximum if enough
+	// candidates exist (the matching count above is then ignored): any of "proposer_slashings",
+	// "attester_slashings", "exits", "deposits" (submits enough deposits to fill later blocks),
+	// "bls_changes".
+	Fill []string
 }
 
 // Policy is the random source of OpMix and of skipping.
@@ -66,6 +75,30 @@ type Policy struct {
 	Eth1VoteNoise                                                                                float64
 	LateInclusionProb                                                                            float64 // probability that an available attestation is held back for a later block
 	SplitProb                                                                                    float64 // probability that a committee's attestation is included as two aggregates
+	// --- round 2: unusual but valid block shapes. All zero: the round-1 behaviour, bit for bit. ---
+	// LateMode: every committee's attestation gets a planned inclusion delay when its slot first becomes
+	// includable: 1, isqrt(SLOTS_PER_EPOCH)-1 / +0 / +1 (timely-source boundary), exactly SLOTS_PER_EPOCH (the
+	// last slot allowed before deneb, timely-target boundary) and — since deneb — more than SLOTS_PER_EPOCH
+	// (a previous-epoch attestation in the second half of the next epoch). It is included in the first block at
+	// or after that delay that still may carry it; older attestations are served first.
+	LateMode bool
+	// ReincludeProb: probability per block and committee that an aggregate whose members were (partly)
+	// included before is included AGAIN, as the superset of everybody who wants to attest (overlap, repeat).
+	ReincludeProb float64
+	// BurstProb: probability that a block is asked to carry exactly the maximum of one random operation kind
+	// (OpMix.Fill), e.g. 16 proposer slashings at once.
+	BurstProb float64
+	// PayloadEdgeProb: probability of OpMix.PayloadEdge.
+	PayloadEdgeProb float64
+	// ExitAtEarliest: every validator that was activated through a deposit (activation_epoch > 0) exits in the
+	// first block of the epoch activation_epoch + SHARD_COMMITTEE_PERIOD (the earliest moment allowed), on top of
+	// the exits the rates ask for.
+	ExitAtEarliest bool
+	// Showcase: the first slot of every fork epoch always has a block (unless its proposer is slashed — the
+	// generator keeps that proposer out of slashings and exits beforehand), carrying every signed operation
+	// kind the fork has: proposer slashing, attester slashing, attestations, exit, BLS change, sync aggregate,
+	// and — by timing the eth1 votes so that the tipping vote is this block's — deposits.
+	Showcase bool
 	// MinActive: slashings and exits are not generated when fewer than this many validators would stay
 	// active. 0: max(2*SLOTS_PER_EPOCH, half of the genesis validators).
 	MinActive int
@@ -98,6 +131,19 @@ func drawCount(rng *rand.Rand, rate float64) int {
 }
 
 func (p *Policy) draw(rng *rand.Rand) *OpMix {
+	m := p.drawBase(rng)
+	// round-2 knobs draw only when switched on, so that the random stream of the old policies is untouched
+	if p.PayloadEdgeProb > 0 && rng.Float64() < p.PayloadEdgeProb {
+		m.PayloadEdge = true
+	}
+	if p.BurstProb > 0 && rng.Float64() < p.BurstProb {
+		m.Fill = []string{[]string{"proposer_slashings", "attester_slashings", "attester_slashings", "exits", "exits", "deposits", "deposits",
+			"bls_changes", "bls_changes", "bls_changes"}[rng.Intn(10)]}
+	}
+	return m
+}
+
+func (p *Policy) drawBase(rng *rand.Rand) *OpMix {
 	m := &OpMix{
 		ProposerSlashings: drawCount(rng, p.ProposerSlashings),
 		AttesterSlashings: drawCount(rng, p.AttesterSlashings),
@@ -318,10 +364,17 @@ func (c *Counters) Add(o *Counters) {
 //	eventful      many slashings, exits, deposits, skips
 //	exits         no slashings, many voluntary exits and BLS changes (full withdrawals follow)
 //	deposits      quiet chain with a steady stream of new deposits and top-ups (activations)
+//	late          attestations included late: at the timely-source / timely-target boundaries, in deneb later than
+//	              SLOTS_PER_EPOCH; re-included and overlapping aggregates
+//	full          bursts: blocks with exactly MAX_x proposer slashings / attester slashings / exits / deposits / BLS changes
+//	edge          payload extra_data of 0/31/32 bytes, no or several transactions, 0 or MAX_BLOBS_PER_BLOCK commitments
+//	earlyexit     deposits + every deposit-activated validator exits at activation_epoch + SHARD_COMMITTEE_PERIOD
+//	showcase      the first block of every fork carries every signed operation kind (use with fast2@ / apart:)
 //	sparse        default operations, ~30% participation in every epoch (leak, ejections)
 //	under         participation just under 2/3 in every epoch (no justification)
 //	over          participation just over 2/3 in every epoch (justification at the threshold)
 //	leak-recover  full for 4 epochs (finality), sparse for 5 (leak), then full again (leak ends, finality resumes)
+//	leak-recover-calm  the same without slashings
 //	nobody        blocks without any attestation
 func PolicyByName(name string) Policy {
 	p := DefaultPolicy()
@@ -337,6 +390,31 @@ func PolicyByName(name string) Policy {
 		// a healthy, finalizing chain with a steady stream of deposits (activation queue)
 		p = QuietPolicy()
 		p.NewDeposits, p.TopUps, p.BadPoPDeposits = 0.6, 0.4, 0.1
+	case "late":
+		// attestations arrive late (see Policy.LateMode); almost no skipped slots so that the planned delays are hit
+		p.LateMode, p.ReincludeProb, p.SplitProb, p.LateInclusionProb = true, 0.15, 0.3, 0
+		p.SkipProb = 0.03
+		p.ProposerSlashings, p.AttesterSlashings = 0.02, 0.02
+	case "full":
+		// blocks carrying exactly MAX_x operations of one kind
+		p.BurstProb = 0.45
+		p.NewDeposits, p.TopUps, p.BLSChanges, p.Exits = 0.6, 0.3, 0.5, 0.3
+		p.ProposerSlashings, p.AttesterSlashings = 0.02, 0.02
+		p.SkipProb = 0.05
+		p.MinActive = 24 // bursts need a large budget of validators that may go
+	case "edge":
+		// payload fields at their limits in every block
+		p.PayloadEdgeProb = 1
+	case "earlyexit":
+		// quiet finalizing chain with a stream of deposits; every deposit-activated validator exits at once
+		p = QuietPolicy()
+		p.NewDeposits, p.TopUps, p.ExitAtEarliest = 0.7, 0.2, true
+	case "showcase":
+		// fork-boundary blocks carrying every operation kind
+		p.Showcase = true
+		p.SkipProb, p.Eth1VoteNoise = 0.04, 0
+		p.NewDeposits, p.TopUps, p.BLSChanges = 0.9, 0.3, 0.4
+		p.ProposerSlashings, p.AttesterSlashings, p.Exits = 0.03, 0.03, 0.1
 	case "eventful":
 		p.SkipProb = 0.2
 		p.ProposerSlashings, p.AttesterSlashings, p.Exits = 0.15, 0.15, 0.5
@@ -350,6 +428,10 @@ func PolicyByName(name string) Policy {
 		p.Participation = fixed(JustOverTwoThirds)
 	case "nobody":
 		p.Participation = fixed(Nobody)
+	case "leak-recover-calm":
+		// leak-recover without slashings (a slashing wave can keep finality away for good)
+		p = PolicyByName("leak-recover")
+		p.ProposerSlashings, p.AttesterSlashings = 0, 0
 	case "leak-recover":
 		p.Participation = func(e common.Epoch) Pattern {
 			if e >= 4 && e < 9 {
@@ -362,4 +444,5 @@ func PolicyByName(name string) Policy {
 }
 
 // PolicyNames lists the names PolicyByName knows.
-var PolicyNames = []string{"default", "quiet", "eventful", "exits", "deposits", "sparse", "under", "over", "leak-recover", "nobody"}
+var PolicyNames = []string{"default", "quiet", "eventful", "exits", "deposits", "sparse", "under", "over", "leak-recover", "nobody",
+	"late", "full", "edge", "earlyexit", "showcase", "leak-recover-calm"}
